@@ -295,7 +295,7 @@ class Builder:
         else:
             raise ValueError(d)
         # no call of these scenarios takes longer than a few seconds (3 deployment attempts, deploy_timeout 3s)
-        st["timeout_ms"] = 5000 if slow else 12000
+        st["timeout_ms"] = 5000 if slow else 30000
         if caller:
             st["caller"] = caller
         return st
